@@ -139,6 +139,9 @@ class Scenario:
         self.calls = []                                               # (point, value) recorded
         self.gcalls = []
         self.events = None                                            # shared with Script.log: order of queries and uniforms
+        self.shared = False                                           # target returns the SAME array object on every call
+        self._lbuf = np.zeros(1)
+        self._gbuf = np.zeros(dim)
 
     # recorded wrappers handed to cuqi
     def rec_F(self, x):
@@ -147,12 +150,19 @@ class Scenario:
         self.calls.append((x.copy(), v))
         if self.events is not None:
             self.events.append(("q", len(self.calls) - 1))
+        if self.shared:
+            self._lbuf[0] = v          # preallocated work array, result written in place
+            return self._lbuf
         return v
 
     def rec_G(self, x):
         x = arr(x)
-        g = self.G(x)
+        with np.errstate(all="ignore"):
+            g = self.G(x)
         self.gcalls.append((x.copy(), arr(g).copy()))
+        if self.shared:
+            self._gbuf[:] = g
+            return self._gbuf
         return g
 
     def prior_logd(self, x):
@@ -180,7 +190,7 @@ def make_scenario(rs, kernel, idx, force_shift=False, flat=False, extreme=None):
         fam = "support"      # invalid proposals at components that are not the last of the sweep
     k0 = int(rs.randint(0, max(1, dim - 1)))   # coordinate carrying the support restriction (never the last one for dim >= 2)
     if extreme:
-        fam = extreme
+        fam = extreme if extreme != "quad_plain" else "quad"
     if force_shift:
         fam = "quad"        # DESIGN §5 #12 (and the analogous shifted random-walk proposal): always exercised
     lo = float(rs.choice([-1.0, -0.5, 0.0]))
@@ -205,6 +215,26 @@ def make_scenario(rs, kernel, idx, force_shift=False, flat=False, extreme=None):
         # steep non-Gaussian targets: |Δ log π| of 1e3…1e6 between neighbouring points at large |x|
         pw = 4 if fam == "steep4" else 6
         F, G = (lambda x: -float(np.sum(x ** pw)) / pw), (lambda x: -(x ** (pw - 1)))
+    elif fam == "kink":
+        # log-density finite everywhere, gradient NaN at the origin (0/0)
+        def F(x):
+            return -float(np.sqrt(np.sum(x ** 2)))
+        def G(x):
+            with np.errstate(all="ignore"):
+                return -x / np.sqrt(np.sum(x ** 2))
+    elif fam == "halfsqrt":
+        # support x >= 0, gradient -inf on the boundary coordinates, NaN outside
+        def F(x):
+            return -float(np.sum(np.sqrt(x))) - 0.5 * float(np.sum(x ** 2)) if np.all(x >= 0) else -math.inf
+        def G(x):
+            with np.errstate(all="ignore"):
+                return -0.5 / np.sqrt(x) - x
+    elif fam in ("bigstate", "tinystate"):
+        # state magnitude 1e3..1e6 (resp. 1e-4) with steps 1e-3 (resp. 1e-9): tolerance-based "did it move" tests show up
+        mag = float(rs.choice([1e3, 1e4, 1e6])) if fam == "bigstate" else 1e-4
+        cen = mag * rs.choice([-1.0, 1.0], size=dim)
+        wid = 1e-2 if fam == "bigstate" else 1e-8
+        F, G = (lambda x: -0.5 * float(np.sum(((x - cen) / wid) ** 2))), (lambda x: -(x - cen) / wid ** 2)
     elif fam == "huge":
         K = float(rs.choice([1e3, 1e4, 1e6]))
         F, G = (lambda x: -0.5 * K * float(np.sum((x - mu) ** 2))), (lambda x: -K * (x - mu))
@@ -233,6 +263,8 @@ def make_scenario(rs, kernel, idx, force_shift=False, flat=False, extreme=None):
         G = gquad
     sc = Scenario(f"{fam}{idx}", dim, F, G)
     sc.fam = fam
+    if fam in ("bigstate", "tinystate"):
+        sc.center, sc.width = cen, wid
     if kernel.endswith("PCN"):
         nz = rs.rand() < 0.25 or force_shift
         sc.prior_mean = rs.randint(-2, 3, size=dim).astype(float) if nz else np.zeros(dim)
@@ -323,7 +355,13 @@ def true_ratio_single(t, xstar):
         s_ = float(t.scale[0])
         a = lam = None
         M = np.stack([x, xi], axis=1)
-        if sc.dim >= 2 and np.linalg.matrix_rank(M) == 2:
+        c_nom0 = math.sqrt(max(0.0, 1 - s_ * s_))
+        scale_x = float(np.max(np.abs(xstar))) if len(xstar) else 0.0
+        if np.allclose(c_nom0 * x + s_ * xi, xstar, rtol=0, atol=8e-16 * (scale_x + float(np.max(np.abs(s_ * xi))) + 1e-300)):
+            # the recorded points are reproduced to rounding by the prior-reversible pair (sqrt(1-s²), s):
+            # take it (solving a 2-parameter fit is ill-conditioned when |s xi| << |x|)
+            a, lam = c_nom0, s_
+        elif sc.dim >= 2 and np.linalg.matrix_rank(M) == 2:
             sol = np.linalg.lstsq(M, xstar, rcond=None)[0]
             a, lam = float(sol[0]), float(sol[1])
         else:
@@ -345,30 +383,50 @@ def true_ratio_single(t, xstar):
         if a is None or lam == 0 or not np.allclose(a * x + lam * xi, xstar, rtol=1e-9, atol=1e-12):
             return None
         t.mech = {"a": a, "lambda": lam, "a2+lambda2": a * a + lam * lam}
+        t.cond = (float(np.max(np.abs(x))) + float(np.max(np.abs(xstar)))) / max(abs(lam) * float(np.min(np.sqrt(sc.prior_var))), 1e-300)
         m, C = sc.prior_mean, sc.prior_var
         lq_fwd = -0.5 * float(np.sum((xstar - a * x - lam * m) ** 2 / C)) / lam ** 2
         lq_bwd = -0.5 * float(np.sum((x - a * xstar - lam * m) ** 2 / C)) / lam ** 2
         return fy - fx + lq_bwd - lq_fwd, fx, fy
     if k in ("expMALA", "legMALA"):
-        # x* = x + c g(x) + sigma z: q(y|x) = N(y; x + c g(x), sigma² I); c inferred from the draw
+        # x* = x + drift + sigma z.  The forward mean x + drift is known from the draw whatever produced it;
+        # the backward mean is y + c g(y) with the coefficient c identified on the finite non-zero entries of
+        # g(x) (Langevin value sigma²/2 when none is usable).  Nothing is taken from the sampler's attributes.
         sig = float(t.sigma)
-        if sig == 0:
+        if sig == 0 or not np.all(np.isfinite(xstar)):
             return None
-        gx = arr(sc.G(x)); gy = arr(sc.G(xstar))
+        with np.errstate(all="ignore"):
+            gx = arr(sc.G(x)); gy = arr(sc.G(xstar))
+        if not np.all(np.isfinite(gy)):
+            return None
         drift = xstar - x - sig * t.z
-        gg = float(gx @ gx)
-        if gg == 0:
-            return None          # drift coefficient not identifiable from this draw (zero gradient at x)
-        c = float(drift @ gx) / gg
-        if not np.allclose(c * gx, drift, rtol=1e-9, atol=1e-12):
+        m = np.isfinite(gx) & (gx != 0)
+        c0 = 0.5 * sig * sig
+        big = float(np.max(np.abs(xstar))) + float(np.max(np.abs(x)))
+        t.cond = big / sig
+        if np.all(np.isfinite(gx)) and np.allclose(x + c0 * gx + sig * t.z, xstar, rtol=0, atol=8e-16 * (big + float(np.max(np.abs(c0 * gx))) + 1e-300)):
+            # reproduced to rounding by the Langevin pair (drift coefficient sigma²/2): take it (the observed
+            # drift x* - x - sigma z is below the resolution of x when the step is tiny relative to the state)
+            c = c0
+            drift = c0 * gx
+        elif np.any(m):
+            c = float(drift[m] @ gx[m]) / float(gx[m] @ gx[m])
+            if not np.allclose(c * gx[m], drift[m], rtol=1e-9, atol=1e-12 * (1 + float(np.max(np.abs(x))))):
+                return None
+        else:
+            c = 0.5 * sig * sig
+        z0 = np.isfinite(gx) & (gx == 0)
+        if np.any(z0) and not np.allclose(drift[z0], 0.0, atol=1e-9 * (1 + float(np.max(np.abs(x))))):
             return None
-        lq_fwd = -0.5 * float(np.sum((xstar - x - c * gx) ** 2)) / sig ** 2
+        t.mech = {"drift_coefficient": c, "observed_drift": [float(v) for v in drift],
+                  "gradient_at_x_finite": bool(np.all(np.isfinite(gx)))}
+        lq_fwd = -0.5 * float(np.sum(t.z ** 2))            # x* - (x + drift) = sigma z by construction
         lq_bwd = -0.5 * float(np.sum((x - xstar - c * gy) ** 2)) / sig ** 2
         return fy - fx + lq_bwd - lq_fwd, fx, fy
     return None
 
 
-def demanded(ell, r, fx, fy):
+def demanded(ell, r, fx, fy, slack=0.0):
     """what the property demands of the accept bit: 1, 0 or None (silent / too close to call)"""
     if fy != fy or fy == -math.inf:
         return 0
@@ -381,7 +439,7 @@ def demanded(ell, r, fx, fy):
     thr = min(0.0, r)
     if ell == -math.inf:
         return 1
-    if abs(ell - thr) <= 1e-9 * (1.0 + abs(thr)):
+    if abs(ell - thr) <= 1e-9 * (1.0 + abs(thr)) + slack:
         return None
     return 1 if ell <= thr else 0
 
@@ -539,21 +597,21 @@ def build_sampler(cuqi, kernel, sc, scale, x0):
     if sc.prop_mean is not None:
         prop = D.Gaussian(sc.prop_mean.copy(), 1)
     if kernel == "expMH":
-        return E.MH(target, proposal=prop, scale=scale, initial_point=cp(x0))
+        return E.MH(target, proposal=prop, scale=scale, initial_point=x0)
     if kernel == "expCWMH":
-        return E.CWMH(target, scale=scale, initial_point=cp(x0))
+        return E.CWMH(target, scale=scale, initial_point=x0)
     if kernel == "expPCN":
-        return E.PCN(target, scale=scale, initial_point=cp(x0))
+        return E.PCN(target, scale=scale, initial_point=x0)
     if kernel == "expMALA":
-        return E.MALA(target, scale=scale, initial_point=cp(x0))
+        return E.MALA(target, scale=scale, initial_point=x0)
     if kernel == "legMH":
-        return L.MH(target, proposal=prop, scale=scale, x0=cp(x0))
+        return L.MH(target, proposal=prop, scale=scale, x0=x0)
     if kernel == "legCWMH":
-        return L.CWMH(target, scale=scale, x0=cp(x0))
+        return L.CWMH(target, scale=scale, x0=x0)
     if kernel == "legPCN":
-        return L.pCN(target, scale=scale, x0=cp(x0))
+        return L.pCN(target, scale=scale, x0=x0)
     if kernel == "legMALA":
-        return L.MALA(target, scale=scale, x0=cp(x0))
+        return L.MALA(target, scale=scale, x0=x0)
     raise ValueError(kernel)
 
 
@@ -602,9 +660,15 @@ def new_T(kernel, sc, hist, step, x, logd, grad, scale, script, hook):
     return t
 
 
+def snap(x0):
+    return (type(x0).__name__, np.array(x0, dtype=float, copy=True).tobytes())
+
+
 def run_exp(cuqi, kernel, sc, hist, nsteps, scale, x0, script, hook, out, sc2=None):
+    x0_before = snap(x0)
     with quiet(), script.installed():
         s = build_sampler(cuqi, kernel, sc, scale, x0)
+        s0 = s
         hook.t = None
         s.initialize()
         if hist == "warmup":
@@ -628,6 +692,10 @@ def run_exp(cuqi, kernel, sc, hist, nsteps, scale, x0, script, hook, out, sc2=No
             sc = sc2
             s.target = build_target(cuqi, kernel, sc)
             s.reinitialize()
+        elif hist == "rescale":
+            # option re-assigned after first use: the kernel must use the CURRENT scale consistently
+            s.sample(3)
+            s.scale = (np.asarray(s.scale) * 0.5) if kernel.endswith("CWMH") else float(np.asarray(s.scale).ravel()[0]) * 0.5
         elif hist == "repoint-new":
             s.sample(3)
             s.initial_point = np.asarray(s.initial_point, dtype=float) * 0 + np.arange(1, sc.dim + 1) / 2.0
@@ -635,7 +703,8 @@ def run_exp(cuqi, kernel, sc, hist, nsteps, scale, x0, script, hook, out, sc2=No
         elif hist == "repoint-inplace":
             s.sample(3)
             ip = s.initial_point
-            if isinstance(ip, np.ndarray) and ip.dtype == np.float64:
+            if isinstance(ip, np.ndarray) and ip.dtype == np.float64 and ip.flags.writeable:
+                x0_before = None                              # the harness itself edits the caller's array here
                 ip[:] = np.arange(1, sc.dim + 1) / 2.0        # same object, mutated in place
             else:
                 s.initial_point = np.arange(1, sc.dim + 1) / 2.0
@@ -663,10 +732,13 @@ def run_exp(cuqi, kernel, sc, hist, nsteps, scale, x0, script, hook, out, sc2=No
         got = s.get_samples().samples
     for t in recs:
         out.append(("T", t))
+    if x0_before is not None and hist not in ("repoint-new",):
+        out.append(("caller-x0", kernel, sc, x0_before, snap(x0)))
     out.append(("stored", kernel, sc, recs, stored, np.asarray(got)[:, n0:] if np.asarray(got).ndim == 2 else None))
 
 
 def run_leg(cuqi, kernel, sc, hist, nsteps, scale, x0, script, hook, out):
+    x0_before = snap(x0)
     with quiet(), script.installed():
         s = build_sampler(cuqi, kernel, sc, scale, x0)
         hook.t = None
@@ -696,6 +768,7 @@ def run_leg(cuqi, kernel, sc, hist, nsteps, scale, x0, script, hook, out):
         else:
             res = s.sample(nsteps + 1)
             nb = 0
+    out.append(("caller-x0", kernel, sc, x0_before, snap(x0)))
     # returned chain: column c is samples[:, nb + c], i.e. the result of transition nb + c - 1
     chain = np.asarray(res.samples)
     if kernel != "legCWMH" and chain.ndim == 2:     # legacy CWMH overwrites the stored previous column through a view (C14 finding): not judged here
@@ -765,27 +838,51 @@ def oracle(ctx, t, stats):
                 comps.append([ev[1], None])
             elif ev[0] == "u" and comps and comps[-1][1] is None:
                 comps[-1][1] = ev[1]
-        if len(comps) != d or len(t.acc) != d:
+        nd = [dr for dr in t.draws if dr[0] == "normal"]
+        drawn = (nd[-1][1] + nd[-1][2] * nd[-1][3]) if nd else None
+        if drawn is not None and drawn.shape != (d,):
+            drawn = None
+        if len(t.acc) != d or len(comps) > d or (len(comps) < d and drawn is None):
             stats["cw-shape-unknown"] = stats.get("cw-shape-unknown", 0) + 1
             return fails
         xt = t.x.copy()
         cur = sc.post(xt)
-        point_failed = False
-        trunc_failed = False
+        point_failed = trunc_failed = skip_failed = False
+        ci = 0
         for j in range(d):
-            qpt, qval = t.queries[comps[j][0]]
-            u = comps[j][1]
+            # does the next evaluation belong to component j?  (a component may have been passed over
+            # without evaluating the target; it is then identified through the recorded proposal draw)
+            has_q = ci < len(comps)
+            if has_q and len(comps) < d and drawn is not None:
+                qp = t.queries[comps[ci][0]][0]
+                if not close(qp[j], drawn[j], 1e-6) and any(close(qp[jj], drawn[jj], 1e-6) and qp[jj] != xt[jj] for jj in range(j + 1, d)):
+                    has_q = False
+            if not has_q:
+                a = t.acc[j]
+                if drawn is not None and drawn[j] != xt[j]:
+                    expect = xt.copy(); expect[j] = drawn[j]
+                    fy = sc.post(expect)
+                    if a == 0 and fy == fy and abs(fy) != math.inf and (cur == cur and cur != math.inf) and not skip_failed:
+                        skip_failed = True
+                        r_ = fy - cur
+                        fail("component-skipped", {"component": j, "acceptance_probability": "min(1, exp(%r))" % r_},
+                             {"component": j, "acceptance_probability": 0, "target_evaluated": False},
+                             f"component {j}: the drawn proposal coordinate {float(drawn[j])!r} differs from the current one {float(xt[j])!r} but was "
+                             f"rejected without evaluating the target or drawing a uniform; its MH probability is min(1, exp({r_!r})) > 0")
+                if a == 1 and drawn is not None:
+                    xt[j] = drawn[j]; cur = sc.post(xt)
+                continue
+            qpt, qval = t.queries[comps[ci][0]]
+            u = comps[ci][1]
+            ci += 1
             # each inner iteration must be an MH step whose proposal differs from the CURRENT state in
             # coordinate j only (one-coordinate proposal centred at the current coordinate)
             expect = xt.copy(); expect[j] = qpt[j]
-            nd = [dr for dr in t.draws if dr[0] == "normal"]
-            if nd and not trunc_failed:
-                drawn = (nd[-1][1] + nd[-1][2] * nd[-1][3])
-                if drawn.shape == (d,) and not close(qpt[j], drawn[j], 1e-6):
-                    trunc_failed = True
-                    fail("proposal-truncated", float(drawn[j]), float(qpt[j]),
-                         f"component {j}: the coordinate evaluated/stored is not the drawn proposal coordinate (altered by the dtype of the "
-                         "work vector); the chain then lives on a lattice and the proposal is not the symmetric random walk")
+            if drawn is not None and not trunc_failed and not close(qpt[j], drawn[j], 1e-6):
+                trunc_failed = True
+                fail("proposal-truncated", float(drawn[j]), float(qpt[j]),
+                     f"component {j}: the coordinate evaluated/stored is not the drawn proposal coordinate (altered by the dtype of the "
+                     "work vector); the chain then lives on a lattice and the proposal is not the symmetric random walk")
             if not np.array_equal(qpt, expect, equal_nan=True) and not point_failed:
                 point_failed = True
                 fail("component-point", {"component": j, "evaluated_at": [float(v) for v in expect]},
@@ -832,11 +929,13 @@ def oracle(ctx, t, stats):
     cache_true = sc.F(t.x)
     if rr is None:
         stats["mechanism-unknown"] = stats.get("mechanism-unknown", 0) + 1
-    dem = demanded(ell, rr[0], fx, fy) if rr is not None else (0 if (fy != fy or fy == -math.inf) else None)
+    dem = demanded(ell, rr[0], fx, fy, slack=1e-12 * getattr(t, "cond", 0.0)) if rr is not None else (0 if (fy != fy or fy == -math.inf) else None)
     if fy != fy and a == 1:
         fail("accept-nan", 0, 1, "a proposal whose target log-density is NaN was accepted")
     elif fy == -math.inf and a == 1:
-        why = "u0" if t.us[0] == 0 else ("from-neginf" if fx == -math.inf else ("from-nan" if fx != fx else "other"))
+        with np.errstate(all="ignore"):
+            gfin = (not k.endswith("MALA")) or bool(np.all(np.isfinite(arr(sc.G(t.x)))))
+        why = "u0" if t.us[0] == 0 else ("from-neginf" if fx == -math.inf else ("from-nan" if fx != fx else ("other" if gfin else "nonfinite-gradient")))
         fail(f"accept-neginf:{why}", 0, 1, "a proposal whose target log-density is -inf was accepted")
     elif dem is not None and a != dem:
         fail("decision", dem, a, f"accept bit differs from [log u <= min(0, log MH ratio of the proposal actually used)] (log u={ell!r}, log ratio={rr[0] if rr else None!r})")
@@ -844,18 +943,24 @@ def oracle(ctx, t, stats):
         stats["decisions"] = stats.get("decisions", 0) + 1
     # frame
     if a == 0:
-        ok = np.array_equal(t.x1, t.x) and same_float(t.logd1, t.logd) and np.array_equal(t.grad1, t.grad)
+        ok = np.array_equal(t.x1, t.x) and same_float(t.logd1, t.logd) and np.array_equal(t.grad1, t.grad, equal_nan=True)
         if not ok:
             fail("frame-reject", "state and caches unchanged", "changed", "a rejected transition changed the point or a cached value")
     else:
         lv = sc.F(xstar)
-        ok = np.array_equal(t.x1, xstar) and (same_float(t.logd1, lv) or close(t.logd1, lv, 1e-9))
+        ok = np.array_equal(t.x1, xstar, equal_nan=True) and (same_float(t.logd1, lv) or close(t.logd1, lv, 1e-9))
         if k.endswith("MALA") and ok:
             gv = arr(sc.G(xstar))
             ok = t.grad1.shape == gv.shape and bool(np.allclose(t.grad1, gv, rtol=1e-9, atol=1e-12, equal_nan=True))
         if not ok:
             fail("frame-accept", "point = proposal, caches = values at the proposal", "differs", "an accepted transition did not install the proposal and its log-density/gradient")
     # stale cache before the step (e.g. after reload / warm-up)
+    if k.endswith("MALA"):
+        with np.errstate(all="ignore"):
+            g_true = arr(sc.G(t.x))
+        if t.grad.shape != g_true.shape or not np.allclose(t.grad, g_true, rtol=1e-9, atol=1e-12, equal_nan=True):
+            fail("stale-grad", [float(v) for v in g_true], [float(v) for v in t.grad],
+                 "cached gradient does not belong to the current point (e.g. it aliases an array the target re-uses)")
     if not (same_float(t.logd, cache_true) or close(t.logd, cache_true, 1e-9)):
         fail("stale-cache", repr(cache_true), repr(t.logd), "cached log-density does not belong to the current point")
     return fails
@@ -910,7 +1015,7 @@ def compare(ctx, t, out, stats):
         rr = true_ratio_single(t, t.queries[0][0])
         if rr is not None and rr[0] == rr[0] and abs(rr[0]) != math.inf:
             stats["mala-ratio-checked"] = stats.get("mala-ratio-checked", 0) + 1
-            if not close(rr[0], Fraction(r), 1e-7):
+            if not close(rr[0], Fraction(r), 1e-7) and abs(rr[0] - float(Fraction(r))) > 1e-12 * getattr(t, "cond", 0.0) * (1 + abs(rr[0])):
                 diffs.append(("log-ratio", float(Fraction(r)), rr[0]))
     return diffs
 
@@ -1007,7 +1112,7 @@ def cw_nonsymmetric(ctx, cuqi):
         np.random.seed(4242 + ctx.seed)
         with quiet():
             s = cuqi.experimental.mcmc.CWMH(t, proposal=D.Gamma(shape=lambda location: np.abs(location) + 1, rate=lambda scale: 1 / scale, geometry=2),
-                                            scale=sc_, initial_point=cp(x0))
+                                            scale=sc_, initial_point=x0)
             s.initialize()
         impl = "ok"
     except Exception:
@@ -1175,6 +1280,94 @@ def run(ctx):
                     ctx.note(f"dtype scenario raised: {k} {kind} {hist}: {repr(e)[:160]}")
                     stats["raised"] = stats.get("raised", 0) + 1
 
+    # ---- round-4 input classes, every kernel: non-finite gradients at kinks / boundaries (exact-zero starting points),
+    # steps tiny relative to the state (tolerance-based tests), targets returning the same array object on every
+    # call, array properties of the starting point (strides, read-only, subclass), scale re-assigned after use
+    def launch(k, sc, hist, n, scale, x0, seed_off):
+        script = Script(ctx.seed * 7919 + 20000 + seed_off)
+        hook = UHook(np.random.RandomState(ctx.seed * 104729 + 20000 + seed_off))
+        script.u_hook = hook
+        try:
+            if k.startswith("exp"):
+                run_exp(cuqi, k, sc, hist, n, scale, x0, script, hook, records)
+            else:
+                run_leg(cuqi, k, sc, hist, n if hist == "plain" else 22, scale, x0, script, hook, records)
+        except Exception as e:
+            ctx.note(f"round-4 scenario raised: {k} {sc.name} {hist}: {repr(e)[:160]}")
+            stats["raised"] = stats.get("raised", 0) + 1
+        for m_, c_ in hook.modes.items():
+            stats["u-" + m_] = stats.get("u-" + m_, 0) + c_
+
+    so = 0
+    for ki, k in enumerate(KERNELS):
+        rs = np.random.RandomState(7000 * ctx.seed + 13 * ki + 1)
+        hists = ("fresh", "warmup") if k.startswith("exp") else ("plain", "adapt")
+        mala, pcn, cw = k.endswith("MALA"), k.endswith("PCN"), k.endswith("CWMH")
+        for rep_ in range(2 if not thorough else 8):
+            # (i) kinks / boundaries, started exactly there
+            for fam in ("kink", "halfsqrt"):
+                sc = make_scenario(rs, k, 3000 + so, extreme=fam)
+                x0 = np.zeros(sc.dim)
+                if fam == "halfsqrt" and sc.dim > 1 and rep_ % 2 == 1:
+                    x0[-1] = 0.5                      # only some gradient entries non-finite
+                so += 1
+                launch(k, sc, hists[rep_ % 2], nsteps, 0.25 if not pcn else 0.5, x0, so)
+            # many short runs for the gradient-based kernels: only the first transition(s) sit exactly on the kink / boundary
+            if mala:
+                for extra in range(8):
+                    fam = ("kink", "halfsqrt")[extra % 2]
+                    sc = make_scenario(rs, k, 3000 + so, extreme=fam)
+                    x0 = np.zeros(sc.dim)
+                    if fam == "halfsqrt" and sc.dim > 1 and extra % 4 == 3:
+                        x0[0] = 0.25
+                    so += 1
+                    launch(k, sc, hists[0], 2, float(rs.choice([0.25, 0.0625, 1.0])), x0, so)
+            # (ii) steps tiny relative to the state
+            for fam in ("bigstate", "bigstate", "tinystate"):
+                sc = make_scenario(rs, k, 3000 + so, extreme=fam)
+                if pcn:
+                    mag = float(np.max(np.abs(sc.center)))
+                    sc.prior_mean, sc.prior_var, sc.cls = np.zeros(sc.dim), np.full(sc.dim, mag * mag), "std"
+                    scale = sc.width / mag
+                elif mala:
+                    scale = sc.width ** 2
+                elif cw and k.startswith("exp") and rep_ % 2 == 0:
+                    scale = np.full(sc.dim, sc.width)
+                else:
+                    scale = sc.width
+                x0 = sc.center + sc.width * rs.randint(-2, 3, size=sc.dim)
+                so += 1
+                launch(k, sc, hists[(rep_ + so) % 2], nsteps, scale, x0, so)
+            # (iii) target returning the same preallocated arrays on every call
+            sc = make_scenario(rs, k, 3000 + so, extreme="quad_plain")
+            sc.shared = True
+            sc.prop_mean = None
+            if pcn:
+                sc.prior_mean = np.zeros(sc.dim)
+            sc.cls = "shared-output"
+            so += 1
+            launch(k, sc, hists[rep_ % 2], nsteps, 0.5 if not mala else 0.25, rs.randint(-2, 3, size=sc.dim) / 2.0, so)
+            # (iv) array properties of the starting point
+            for kind in ("strided", "negstride", "readonly", "cuqiarray"):
+                sc = make_scenario(rs, k, 3000 + so, flat=True)
+                base = rs.randint(-3, 4, size=2 * sc.dim) / 2.0
+                if kind == "strided":
+                    x0 = base[::2]
+                elif kind == "negstride":
+                    x0 = base[::-2]
+                elif kind == "readonly":
+                    x0 = base[:sc.dim].copy(); x0.flags.writeable = False
+                else:
+                    x0 = cuqi.array.CUQIarray(base[:sc.dim].copy())
+                stats["x0-" + kind] = stats.get("x0-" + kind, 0) + 1
+                so += 1
+                launch(k, sc, hists[(rep_ + so) % 2], nsteps, 0.5 if not mala else 0.25, x0, so)
+            # (v) scale re-assigned after first use
+            if k.startswith("exp"):
+                sc = make_scenario(rs, k, 3000 + so)
+                so += 1
+                launch(k, sc, "rescale", nsteps, 0.5 if not mala else 0.25, rs.randint(-2, 3, size=sc.dim) / 2.0, so)
+
     # model side
     from harness.core import KnownMap
     open_known = KnownMap([r_ for r_ in ctx.known if r_.get("status", "open") == "open"])
@@ -1182,10 +1375,14 @@ def run(ctx):
     new_fail_keys = {}          # kernel -> first oracle failure key that is not a listed finding
     lines, idx = [], []
 
+    known_cls_keys = {}         # (kernel, non-std class) -> a listed finding's failure key seen in this run
+
     def note_fails(t, fails):
         for fk in fails:
             if fk not in open_known:
                 new_fail_keys.setdefault(t.kernel, fk)
+            elif t.sc.cls != "std":
+                known_cls_keys.setdefault((t.kernel, t.sc.cls), fk)
 
     for r in records:
         if r[0] == "T":
@@ -1218,8 +1415,11 @@ def run(ctx):
     # which would hide it), else under its own tie key (=> no-failing-input-found)
     for t, fails, field, mv, iv in pending:
         own = [fk for fk in fails if fk not in open_known]
+        cls_known = known_cls_keys.get((t.kernel, t.sc.cls))
         if own:
             key = own[0]
+        elif t.sc.cls != "std" and cls_known is not None:
+            key = cls_known       # input class of a listed finding (keys are per kernel and class): the difference is that finding
         elif t.kernel in new_fail_keys:
             key = new_fail_keys[t.kernel]
         else:
@@ -1230,11 +1430,17 @@ def run(ctx):
         if r[0] == "chain":
             _, k, sc, a, b = r
             ctx.case(f"{k}:chain-link", {"target": sc.name, "step": b.step})
-            ok = np.array_equal(a.x1, b.x) and same_float(a.logd1, b.logd) and np.array_equal(a.grad1, b.grad)
+            ok = np.array_equal(a.x1, b.x, equal_nan=True) and same_float(a.logd1, b.logd) and np.array_equal(a.grad1, b.grad, equal_nan=True)
             if not ok:
                 key = f"{k}:{sc.cls}:chain-link"
                 ctx.fail(key, b.desc(), "next transition starts from the previous result (point and caches)", "differs",
                          "between transitions the state or its cached density/gradient changed")
+        elif r[0] == "caller-x0":
+            _, k, sc, before, after = r
+            ctx.case(f"{k}:caller-x0", {"target": sc.name})
+            if before != after:
+                ctx.fail(f"{k}:{sc.cls}:caller-x0-modified", {"kernel": k, "target": sc.name}, "the caller's x0 / initial_point array is left untouched",
+                         "modified", "sampling wrote into the array the caller passed as starting point")
         elif r[0] == "stored":
             _, k, sc, recs_, lst, mat = r
             for i_, t_ in enumerate(recs_):
